@@ -148,8 +148,25 @@ static uint64_t family_pattern(const Case& c) {
   ada::url_pattern_options opt; opt.ignore_case = !ops.empty() && (ops[0] & 1);
   std::string_view bsv = xb.sv();
   uint64_t fam = 0;
+  // Matching is skipped (construction is not) for pattern texts that stack quantifiers - a '*' or '+' right after a group, a
+  // name or another quantifier, or more than two unbounded parts: such patterns are exponential in libstdc++'s backtracking
+  // std::regex, which would trip the watchdog for a reason that is the regex provider's, not ada's.
+  auto regex_safe = [](const std::string& s) {
+    int unbounded = 0; bool name = false;
+    for (size_t i = 0; i < s.size(); i++) {
+      char ch = s[i];
+      if (ch == '\\') { i++; name = false; continue; }
+      if (ch == '*' || ch == '+') { unbounded++; if (i > 0 && (s[i - 1] == ')' || s[i - 1] == '}' || s[i - 1] == '*' || s[i - 1] == '+' || name)) return false; }
+      if (ch == ':') { name = true; unbounded++; continue; }
+      if (name && !(isalnum((unsigned char)ch) || ch == '_' || (unsigned char)ch >= 0x80)) name = false;
+      if (ch == '(') unbounded++;
+    }
+    return unbounded <= 3;
+  };
+  const bool match_ok = regex_safe(pat) && regex_safe(c[2].substr(0, 48)) && regex_safe(c[3].substr(0, 48));
   auto use = [&](ada::url_pattern<regex_provider>& p) {
     n_patterns_ok++; fam |= 64;
+    if (!match_ok) { sink += p.get_pathname().size() + p.has_regexp_groups(); return; }
     sink += p.get_protocol().size() + p.get_username().size() + p.get_password().size() + p.get_hostname().size() + p.get_port().size() + p.get_pathname().size() + p.get_search().size() + p.get_hash().size();
     sink += p.ignore_case(); sink += p.has_regexp_groups();
     auto t = p.test(xi.sv(), nullptr); auto e = p.exec(xi.sv(), nullptr); auto m = p.match(xi.sv(), nullptr);
@@ -237,7 +254,7 @@ static std::string rnd_field(vh::Rng& r, const std::vector<std::string>& pool, b
     case 1: { std::string s = r.pick(pool); return gen::mutate(r, s, &pool); }
     case 2: { std::string s = gen::url(r); if (!s.empty()) s[r.below(s.size())] = (char)r.below(256); return s; }          // one corrupted byte
     case 3: { std::string s = gen::url(r); s.insert(r.below(s.size() + 1), std::string(1 + r.below(3), (char)(0x80 + r.below(128)))); return s; }  // truncated / stray UTF-8
-    case 4: return role == 4 ? std::string(r.pick(std::vector<const char*>{"/:id", "/*", "/(\\d+)", "{/a}?", "https://*.example.com/:x+", "/:a(b|c)*", ":p://h/\\:x", "/[", "/(", "{", "/:\xF0\x9F\x98\x80", "*?", "(a*)*b", "/:id(.*)/:id2", "/a{b}c"})) + gen::tricky_char(r) : gen::host(r, nullptr, false);
+    case 4: return role == 4 ? std::string(r.pick(std::vector<const char*>{"/:id", "/*", "/(\\d+)", "{/a}?", "https://*.example.com/:x", "/:a(b|c)", ":p://h/\\:x", "/[", "/(", "{", "/:\xF0\x9F\x98\x80", "*?", "(a+)b", "/:id(.*)/:id2", "/a{b}c"}))   /* no quantified groups containing quantifiers: exponential in std::regex */ + gen::tricky_char(r) : gen::host(r, nullptr, false);
     case 5: return std::string(r.below(cap + 1), (char)r.below(256));
     case 6: { std::string s; size_t n = r.below(cap / 4 + 1); for (size_t i = 0; i < n; i++) s += gen::tricky_char(r); return s; }
     case 7: return r.pick(gen::base_pool());
